@@ -39,7 +39,8 @@ FieldIdx(d, o, key) ==
       ELSE IF key.s # key.low /\ key.low \in CINames(d, o) /\ folded # {} THEN CHOOSE j \in folded : TRUE ELSE 0
 DepNames(d, f) == {d.fields[DepField(d, g)].out : g \in Range(f.deps)}
 \* ParserField.parse_value for an int field
-ParseValue(f, o, v) == IF ~Fails(v) THEN [val |-> Conv(v), err |-> FALSE]
+ParseValue(f, o, v) == IF "anyty" \in DOMAIN f /\ f.anyty THEN [val |-> v, err |-> FALSE]        \* no annotation: the value as it is
+                       ELSE IF ~Fails(v) THEN [val |-> Conv(v), err |-> FALSE]
                        ELSE IF o.exclude THEN [val |-> DefaultOf(f, o), err |-> Required(f, o)]     \* a required field cannot be excluded
                        ELSE [val |-> Unprov, err |-> TRUE]
 \* BaseParser.parse_addition (exclude_vars are not modelled)
@@ -58,6 +59,11 @@ NoOut == [ok |-> TRUE, kind |-> "pending", errs |-> <<>>, data |-> {}, attrs |->
 Init(Cases) == cs \in Cases /\ m = M0("ffs") /\ outs = [ffs |-> NoOut, dfs |-> NoOut]
 
 FieldOf(c, j) == c.d.fields[j]
+\* as_attname / excluded_keys of parse_data (used by function parsers: FuncWrap); absent in a case = False / none
+AsAtt(c) == "asatt" \in DOMAIN c /\ c.asatt
+Excl(c) == IF "excl" \in DOMAIN c THEN c.excl ELSE {}
+NameOf(c, f) == IF AsAtt(c) THEN f.att ELSE f.out
+DepNamesOf(c, f) == IF AsAtt(c) THEN Range(f.deps) ELSE DepNames(c.d, f)
 \* every loop iteration is a function of the case c = [d, o, x] and the loop state mm; the actions below apply them to <<cs, m>>
 
 (* ---- parse_data ---------------------------------------------------------------------------------------------------------- *)
@@ -100,19 +106,20 @@ FLoopF(c, mm) ==
               \* pinned commit: the conflict is reported inside the alias loop, whatever the field does with its input
               early == IF Variant = "orig" /\ sc.conflict # Unprov THEN "alias" ELSE ""
               nx == [mm EXCEPT !.i = @ + 1, !.errs = Err(mm, early)]
-          IN IF sc.value = Unprov
-               THEN IF Required(f, c.o) THEN [nx EXCEPT !.unprov = @ \cup {f.out}, !.errs = Append(@, "absence")]
-                    ELSE [nx EXCEPT !.unprov = @ \cup {f.out},
-                                         !.res = IF DefaultOf(f, c.o) # Unprov THEN Put(@, f.out, DefaultOf(f, c.o)) ELSE @]
+          IN IF NameOf(c, f) \in Excl(c) THEN [mm EXCEPT !.i = @ + 1]                                  \* excluded_keys: the field is skipped altogether
+             ELSE IF sc.value = Unprov
+               THEN IF Required(f, c.o) THEN [nx EXCEPT !.unprov = @ \cup {NameOf(c, f)}, !.errs = Append(@, "absence")]
+                    ELSE [nx EXCEPT !.unprov = @ \cup {NameOf(c, f)},
+                                         !.res = IF DefaultOf(f, c.o) # Unprov THEN Put(@, NameOf(c, f), DefaultOf(f, c.o)) ELSE @]
              ELSE IF NoInput(f, c.o)
                THEN [nx EXCEPT !.used = @ \cup Range(al),
-                                    !.res = IF DefaultOf(f, c.o) # Unprov THEN Put(@, f.out, DefaultOf(f, c.o)) ELSE @]
+                                    !.res = IF DefaultOf(f, c.o) # Unprov THEN Put(@, NameOf(c, f), DefaultOf(f, c.o)) ELSE @]
              ELSE LET pv == ParseValue(f, c.o, sc.value)
                       late == IF Variant = "fixed" /\ sc.conflict # Unprov THEN <<"alias">> ELSE <<>>
                   IN [nx EXCEPT !.used = @ \cup Range(al),
                                      !.errs = @ \o late \o (IF pv.err THEN <<"parse">> ELSE <<>>),
-                                     !.res = IF pv.val # Unprov THEN Put(@, f.out, pv.val) ELSE @,
-                                     !.deps = IF pv.val # Unprov THEN @ \cup DepNames(c.d, f) ELSE @]
+                                     !.res = IF pv.val # Unprov THEN Put(@, NameOf(c, f), pv.val) ELSE @,
+                                     !.deps = IF pv.val # Unprov THEN @ \cup DepNamesOf(c, f) ELSE @]
 FLoop == m.pc = "floop" /\ m' = FLoopF(cs, m) /\ UNCHANGED <<cs, outs>>
 
 FAddF(c, mm) ==
@@ -133,33 +140,35 @@ DLoopF(c, mm) ==
                THEN LET pa == ParseAddition(c.o, e.v)
                     IN [nx EXCEPT !.errs = Err(mm, pa.err), !.add = IF pa.keep THEN Put(@, e.k.s, pa.val) ELSE @]
              ELSE LET f == FieldOf(c, j)
-                      m1 == [nx EXCEPT !.prov = @ \cup {f.out}]
+                      m1 == [nx EXCEPT !.prov = @ \cup {NameOf(c, f)}]
                   IN IF NoInput(f, c.o)
-                       THEN [m1 EXCEPT !.res = IF DefaultOf(f, c.o) # Unprov THEN Put(@, f.out, DefaultOf(f, c.o)) ELSE @]
-                     ELSE LET seen == IF Variant = "fixed" THEN Has(mm.pvals, f.out) ELSE Has(mm.res, f.out)
-                              prev == IF Variant = "fixed" THEN Get(mm.pvals, f.out) ELSE Get(mm.res, f.out)
+                       THEN [m1 EXCEPT !.res = IF DefaultOf(f, c.o) # Unprov THEN Put(@, NameOf(c, f), DefaultOf(f, c.o)) ELSE @]
+                     ELSE LET seen == IF Variant = "fixed" THEN Has(mm.pvals, NameOf(c, f)) ELSE Has(mm.res, NameOf(c, f))
+                              prev == IF Variant = "fixed" THEN Get(mm.pvals, NameOf(c, f)) ELSE Get(mm.res, NameOf(c, f))
                           IN IF ~c.o.ignore_conflicts /\ seen
                                THEN [m1 EXCEPT !.errs = IF RawNeq(prev, e.v) THEN Append(@, "alias") ELSE @]       \* continue
+                             ELSE IF NameOf(c, f) \in Excl(c)
+                               THEN [m1 EXCEPT !.pvals = IF c.o.ignore_conflicts THEN @ ELSE Put(@, NameOf(c, f), e.v)]
                              ELSE LET pv == ParseValue(f, c.o, e.v)
-                                  IN [m1 EXCEPT !.pvals = IF c.o.ignore_conflicts THEN @ ELSE Put(@, f.out, e.v),
+                                  IN [m1 EXCEPT !.pvals = IF c.o.ignore_conflicts THEN @ ELSE Put(@, NameOf(c, f), e.v),
                                                      !.errs = IF pv.err THEN Append(@, "parse") ELSE @,
-                                                     !.res = IF pv.val # Unprov THEN Put(@, f.out, pv.val) ELSE @,
-                                                     !.deps = IF pv.val # Unprov THEN @ \cup DepNames(c.d, f) ELSE @]
+                                                     !.res = IF pv.val # Unprov THEN Put(@, NameOf(c, f), pv.val) ELSE @,
+                                                     !.deps = IF pv.val # Unprov THEN @ \cup DepNamesOf(c, f) ELSE @]
 DLoop == m.pc = "dloop" /\ m' = DLoopF(cs, m) /\ UNCHANGED <<cs, outs>>
 
 DPostF(c, mm) ==
   IF mm.i > Len(c.d.fields) \/ (Variant = "orig" /\ c.o.ignore_required) THEN [mm EXCEPT !.pc = "deps"]
      ELSE LET f == FieldOf(c, mm.i)
               nx == [mm EXCEPT !.i = @ + 1]
-          IN IF Has(mm.res, f.out) \/ (Variant = "fixed" /\ f.out \in mm.prov) THEN nx
-             ELSE IF Required(f, c.o) THEN [nx EXCEPT !.unprov = @ \cup {f.out}, !.errs = Append(@, "absence")]
-             ELSE [nx EXCEPT !.unprov = @ \cup {f.out},
-                                  !.res = IF DefaultOf(f, c.o) # Unprov THEN Put(@, f.out, DefaultOf(f, c.o)) ELSE @]
+          IN IF Has(mm.res, NameOf(c, f)) \/ (Variant = "fixed" /\ NameOf(c, f) \in mm.prov) \/ NameOf(c, f) \in Excl(c) THEN nx
+             ELSE IF Required(f, c.o) THEN [nx EXCEPT !.unprov = @ \cup {NameOf(c, f)}, !.errs = Append(@, "absence")]
+             ELSE [nx EXCEPT !.unprov = @ \cup {NameOf(c, f)},
+                                  !.res = IF DefaultOf(f, c.o) # Unprov THEN Put(@, NameOf(c, f), DefaultOf(f, c.o)) ELSE @]
 DPost == m.pc = "dpost" /\ m' = DPostF(cs, m) /\ UNCHANGED <<cs, outs>>
 
 (* ---- both ---------------------------------------------------------------------------------------------------------------- *)
 DepsF(c, mm) ==
-  LET lack == (mm.deps \ Dom(mm.res)) \cup (mm.deps \cap mm.unprov)
+  LET lack == (mm.deps \ (Dom(mm.res) \cup Excl(c))) \cup (mm.deps \cap mm.unprov)
      IN [mm EXCEPT !.pc = IF mm.strat = "ffs" THEN "fadd" ELSE "finish", !.i = 1,
                        !.errs = IF mm.deps # {} /\ lack # {} THEN Append(@, "deps") ELSE @]
 Deps == m.pc = "deps" /\ m' = DepsF(cs, m) /\ UNCHANGED <<cs, outs>>
@@ -188,6 +197,10 @@ StepF(c, mm) == CASE mm.pc = "start" -> StartF(c, mm) [] mm.pc = "fold" -> FoldF
 RECURSIVE RunFrom(_, _)
 RunFrom(c, mm) == IF mm.pc = "finish" THEN Outcome(c, mm) ELSE RunFrom(c, StepF(c, mm))
 Run(c, strat) == RunFrom(c, M0(strat))
+\* the loop state at the end (what parse_data returns: res updated with add), for callers other than Schema.__init__
+RECURSIVE RunRawFrom(_, _)
+RunRawFrom(c, mm) == IF mm.pc = "finish" THEN mm ELSE RunRawFrom(c, StepF(c, mm))
+RunRaw(c, strat) == RunRawFrom(c, M0(strat))
 
 (* ---- the properties on the model ------------------------------------------------------------------------------------------ *)
 \* outcome in the shape Admissible / SameOutcome expect (assoc sequences)
